@@ -13,7 +13,10 @@ A case (JSON-able dict):
   attach    'ctor'|'list'|'each'   models given to the constructor | ONE add_model([..]) call | one call per model
   late      [model]     models attached later by an ["add", model] op of a callback
   protected [tag]       top-level triggers whose task is put into machine.protected_tasks
-  triggers  [[model, event]]          top-level triggers, tags 0..n-1, started in this order
+  triggers  [[model, event]]          top-level triggers, tags 0..n-1, started in this order; model -1 = machine.dispatch(event):
+                                      the event of model i then has tag 100 + 10 * k + i
+  kinds     {"1": k, "2": k}          flavour of the recorders with index 1 / 2: 0 coroutine function, 1 plain function returning
+                                      a Task, 2 … a bare Future, 3 … an object with __await__
   script    {"tag:slot:idx": [op]}    what that recorder does when invoked for that tag
                op: ["susp"] | ["trig", model, event, newtag] | ["raise", n] | ["remove", model] | ["add", model] | ["ret", 0|1]
   delays    [int]       top-level trigger k starts after delays[k] bare `await asyncio.sleep(0)` trips
@@ -55,15 +58,32 @@ class Hang(Exception):
     """the case did not finish: deadlock (nothing to release, triggers unfinished) or step bound"""
 
 
-def _event_tag():
-    """tag (first positional trigger argument) of the event whose code is on the Python stack"""
+def _event_data():
+    """EventData of the event whose code is on the Python stack"""
     f = sys._getframe(2)
     while f is not None:
         ed = f.f_locals.get('event_data')
         if ed is not None and getattr(ed, 'args', None):
-            return ed.args[0]
+            return ed
         f = f.f_back
     return None
+
+
+DISPATCH_BASE = 100     # machine.dispatch(ev, 100 + 10 * k) gives the event of model i the tag 100 + 10 * k + i
+
+
+class Later(object):
+    """an awaitable that is neither a coroutine nor a Future"""
+
+    def __init__(self, coro):
+        self.coro = coro
+
+    def __await__(self):
+        return self.coro.__await__()
+
+
+KIND_CORO, KIND_TASK, KIND_FUTURE, KIND_AWAIT = range(4)
+KIND_NAMES = ['coroutine function', 'plain -> Task', 'plain -> Future', 'plain -> __await__ object']
 
 
 class Run(object):
@@ -87,6 +107,14 @@ class Run(object):
         if t is None:
             t = asyncio.current_task()
         return self.root_tasks.get(t, -1)
+
+    def etag(self, event_data):
+        """tag of an event: the first trigger argument; events started by dispatch share their arguments and are
+        told apart by their model"""
+        if event_data is None or not getattr(event_data, 'args', None):
+            return None
+        a = event_data.args[0]
+        return a + self.midx(event_data.model) if a >= DISPATCH_BASE else a
 
     def midx(self, model):
         for i, m in enumerate(self.models):
@@ -113,7 +141,7 @@ class Run(object):
             @state.setter
             def state(self, v):
                 if run.recording:
-                    run.log.append(('set', _event_tag(), run.midx(self), v if isinstance(v, str) else repr(v),
+                    run.log.append(('set', run.etag(_event_data()), run.midx(self), v if isinstance(v, str) else repr(v),
                                     run.chain()))
                 self._st = v
 
@@ -121,19 +149,19 @@ class Run(object):
 
         class M(base):
             async def cancel_running_transitions(self, model, msg=None):
-                run.log.append(('decide', _event_tag(), run.midx(model), run.chain()))
+                run.log.append(('decide', run.etag(_event_data()), run.midx(model), run.chain()))
                 await super().cancel_running_transitions(model, msg)
 
             async def callbacks(self, funcs, event_data):
                 # stage entry markers for the two stages of `_trigger`'s exception handling
                 if funcs is self.finalize_event or funcs is self.on_exception:
-                    run.log.append(('stage', event_data.args[0] if event_data.args else None,
+                    run.log.append(('stage', run.etag(event_data),
                                     'finalize_event' if funcs is self.finalize_event else 'on_exception'))
                 await super().callbacks(funcs, event_data)
 
             async def _process_async(self, trigger, model):
                 # per-event begin/end markers: wrap the `_trigger` partial handed to the real method
-                tag = trigger.args[0].args[0]
+                tag = run.etag(trigger.args[0])
 
                 async def marked(_event_data):
                     run.log.append(('evstart', tag, run.midx(model), run.chain()))
@@ -179,7 +207,7 @@ class Run(object):
         late = case.get('late', [])
         first = [m for i, m in enumerate(self.models) if i not in late]
         self.machine = M(model=first if attach == 'ctor' else None, states=states, transitions=transitions, initial='A', queued=q,
-                         auto_transitions=False, ignore_invalid_triggers=case.get('ignore', False),
+                         auto_transitions=False, ignore_invalid_triggers=case.get('ignore', False), send_event=True,
                          prepare_event=recs('prepare_event'), before_state_change=recs('before_state_change'),
                          after_state_change=recs('after_state_change'), finalize_event=recs('finalize_event'),
                          on_exception=recs('on_exception') if case['on_exc'] else None)
@@ -190,6 +218,9 @@ class Run(object):
         elif attach == 'each':
             for m in first:
                 self.machine.add_model(m)
+        for mi, m in enumerate(self.models):
+            if mi not in late:
+                self.wrap_triggers(mi)
         self.log = []
         self.recording = True
 
@@ -218,15 +249,13 @@ class Run(object):
             return res
 
         if idx == 0:
-            def plain(tag, *a, **k):
-                model = run.models[run.tag_model[tag]]
+            def plain(event_data):
+                tag, model = run.etag(event_data), event_data.model
                 start(tag, model)
                 return sync_ops(tag, model)
             return plain
 
-        async def coro(tag, *a, **k):
-            model = run.models[run.tag_model[tag]]
-            start(tag, model)
+        async def body(tag):
             res = True
             try:
                 for op in run.ops(tag, slot, idx):
@@ -250,7 +279,41 @@ class Run(object):
                 raise
             run.log.append(('cbend', tag, slot, idx, 'ok'))
             return res
-        return coro
+
+        kind = self.case.get('kinds', {}).get(str(idx), KIND_CORO)
+        if kind == KIND_CORO:
+            async def coro(event_data):
+                tag = run.etag(event_data)
+                start(tag, event_data.model)
+                return await body(tag)
+            return coro
+
+        # PLAIN callables that hand back an awaitable which is not a coroutine
+        def handing_back(event_data):
+            tag = run.etag(event_data)
+            start(tag, event_data.model)
+            if kind == KIND_AWAIT:
+                return Later(body(tag))
+            task = asyncio.ensure_future(body(tag))
+            # (a bare Future passes a cancellation on one loop trip late: not for callbacks that await triggers)
+            if kind == KIND_TASK or any(op[0] == 'trig' for op in run.ops(tag, slot, idx)):
+                return task
+            # a bare Future, resolved when the work is done; cancelling the future cancels the work
+            fut = asyncio.get_event_loop().create_future()
+
+            def finished(t):
+                if fut.done():
+                    return
+                if t.cancelled():
+                    fut.cancel()
+                elif t.exception() is not None:
+                    fut.set_exception(t.exception())
+                else:
+                    fut.set_result(t.result())
+            task.add_done_callback(finished)
+            fut.add_done_callback(lambda f: task.cancel() if f.cancelled() else None)
+            return fut
+        return handing_back
 
     def do_remove(self, mi):
         m = self.models[mi]
@@ -265,6 +328,7 @@ class Run(object):
             self.recording = False
             try:
                 self.machine.add_model(m)
+                self.wrap_triggers(mi)
             finally:
                 self.recording = True
 
@@ -279,19 +343,43 @@ class Run(object):
         finally:
             self.futs.pop(fid, None)
 
+    def wrap_triggers(self, mi):
+        """put begin/end markers around the model's trigger methods (dispatch looks them up with getattr too)"""
+        run = self
+        model = self.models[mi]
+        for ev in EVENTS + ['nest']:
+            orig = getattr(model, ev, None)
+            if orig is None or getattr(orig, '_c08', False):
+                continue
+
+            def make(orig, ev):
+                async def marked(*args, **kwargs):
+                    a = args[0]
+                    tag = a + mi if a >= DISPATCH_BASE else a
+                    if AsyncMachine.current_context.get() is None:
+                        run.root_tasks[asyncio.current_task()] = tag        # a new root task
+                    run.log.append(('begin', tag, run.chain(), mi, ev))
+                    try:
+                        res = await orig(*args, **kwargs)
+                    except asyncio.CancelledError:
+                        run.log.append(('raised', tag, 'Cancelled'))
+                        raise
+                    except BaseException as e:
+                        run.log.append(('raised', tag, type(e).__name__))
+                        raise
+                    run.log.append(('ret', tag, res))
+                    return res
+                marked._c08 = True
+                return marked
+            setattr(model, ev, make(orig, ev))
+
     async def call_trigger(self, tag, mi, ev):
-        self.tag_model[tag] = mi
-        self.log.append(('begin', tag, self.chain(), mi, ev))
-        try:
-            res = await self.models[mi].trigger(ev, tag)
-        except asyncio.CancelledError:
-            self.log.append(('raised', tag, 'Cancelled'))
-            raise
-        except BaseException as e:
-            self.log.append(('raised', tag, type(e).__name__))
-            raise
-        self.log.append(('ret', tag, res))
-        return res
+        fn = getattr(self.models[mi], ev, None)
+        if fn is None:          # model not attached (shrinking artefact)
+            self.log.append(('begin', tag, self.chain(), mi, ev))
+            self.log.append(('raised', tag, 'AttributeError'))
+            raise AttributeError(ev)
+        return await fn(tag)
 
     # ------------------------------------------------------------------ the controller
     def snapshot(self):
@@ -306,7 +394,20 @@ class Run(object):
         delays = self.case.get('delays', [])
         for _ in range(delays[tag] if tag < len(delays) else 0):
             await asyncio.sleep(0)
-        return await self.call_trigger(tag, mi, ev)
+        if mi >= 0:
+            return await self.call_trigger(tag, mi, ev)
+        # machine.dispatch: the event on every model of the machine, gathered; the per-model calls are root tasks
+        self.log.append(('dispatch', tag, ev))
+        try:
+            res = await self.machine.dispatch(ev, DISPATCH_BASE + 10 * tag)
+        except asyncio.CancelledError:
+            self.log.append(('draised', tag, 'Cancelled'))
+            raise
+        except BaseException as e:
+            self.log.append(('draised', tag, type(e).__name__))
+            raise
+        self.log.append(('dret', tag, res))
+        return res
 
     async def controller(self, loop):
         case = self.case
@@ -315,17 +416,17 @@ class Run(object):
 
         class Task(asyncio.Task):
             def cancel(self, msg=None):
-                if self in run.root_tasks:
+                if self in run.root_tasks and not self.done():      # cancel() on a finished task is a no-op
                     run.log.append(('cancel', run.root_tasks[self], run.chain()))
                 return super().cancel(msg)
         loop.set_task_factory(lambda lp, coro, **kw: Task(coro, loop=lp, **kw))
         me = asyncio.current_task()
         tasks = []
         for tag, (mi, ev) in enumerate(case['triggers']):
-            self.tag_model[tag] = mi
             # a root task must start with an empty current_context (the controller has none set)
             t = loop.create_task(self.top(tag, mi, ev))
-            self.root_tasks[t] = tag
+            if mi >= 0:
+                self.root_tasks[t] = tag
             tasks.append(t)
             if tag in case.get('protected', []):
                 AsyncMachine.protected_tasks.append(t)
@@ -344,12 +445,12 @@ class Run(object):
                     raise Hang('livelock: the loop never becomes quiescent')
             self.log.append(('quiet', self.nquiet, self.snapshot()))
             self.nquiet += 1
-            if all(t.done() for t in tasks):
+            if all(t.done() for t in tasks) and all(t.done() for t in list(self.root_tasks)):
                 break
             pending = sorted(f for f in self.futs if not self.futs[f].done())
             if not pending:
                 raise Hang('deadlock: triggers unfinished and no suspended callback to release: %s' %
-                           [i for i, t in enumerate(tasks) if not t.done()])
+                           [i for i, t in enumerate(tasks) if not t.done()] + [g for t, g in self.root_tasks.items() if not t.done()])
             k = sched[steps] if steps < len(sched) else 0
             self.branching.append(len(pending))
             fid = pending[k % len(pending)]
